@@ -27,9 +27,12 @@ ASSUMPTIONS = [
     'sort keys are total (repr-based) so tie order is unobservable',
 ]
 
-KEYS = {'ka': 'a', 'kb': 'b', 'kc': 'c', 'k1': 1, 'kN': None, 'kT': (1, 2), 'k1f': 1.0, 'kTrue': True}
+KEYS = {'ka': 'a', 'kb': 'b', 'kc': 'c', 'k1': 1, 'kN': None, 'kT': (1, 2), 'k1f': 1.0, 'kTrue': True,
+        'kLong': 'K' * 450 + '-end'}
 STR_KEYS = ['ka', 'kb', 'kc']
-VALS = {'v0': 0, 'v1': 1, 'v2': 2, 'vx': 'x', 'vN': None, 'vT': (0, 1), 'v1f': 1.0, 'vF': False}
+VALS = {'v0': 0, 'v1': 1, 'v2': 2, 'vx': 'x', 'vN': None, 'vT': (0, 1), 'v1f': 1.0, 'vF': False,
+        # values whose repr runs to hundreds of characters (a request body, a big number)
+        'vLong': 'L' * 450 + '-end', 'vBig': 7 ** 600}
 ABSENT = 'zz-absent'
 _NO = '<nodefault>'
 
